@@ -129,8 +129,8 @@ node, the address-claim timer; steps `poll` = one `ParseMessages` with up to 20 
 including the TP branch, `moveTo` = commanded address), both timer builds, every shift `k`, every node state and every
 frame content: the step from the shifted state gives the shifted state, the same handler calls (`out`), the same frames at
 the driver and in the queue, the same return value. Hypotheses = the sentinel slack only: `TPClockOk` (at this clock no
-`FromNow` with one of the delays the step can arm — 50, 100, 250 ms and `187 + 8a`, `187 + 10a` for the node's own
-addresses `a` — lands on the all-ones value in either run; 64-bit: shifted clock + delay below 2^64-1) and `ShiftOk` (no
+`FromNow` with one of the delays the step can arm — 50, 100, 250 ms, the BAM pacing `bamGap` and `187 + 8a`, `187 + 10a` for
+the node's own addresses `a` — lands on the all-ones value in either run; 64-bit: shifted clock + delay below 2^64-1) and `ShiftOk` (no
 stored timer does). The receive-slot stamps need no hypothesis at all. `ShiftOk` is re-established and the addresses
 are kept, so the statement iterates. -/
 theorem C13_shift_invariance_tp (k : Nat) (n : TP.Node) (hc : TP.TPClockOk k n) (ho : n.ShiftOk k) :
@@ -240,8 +240,8 @@ def exampleTpNode (f : Flavor) (now : Nat) : TP.Node :=
 shifted by 2^31, satisfies the hypotheses of `C13_shift_invariance_tp` -/
 example : TP.TPClockOk 2147483648 (exampleTpNode .t32 (M32 - 40)) ∧ (exampleTpNode .t32 (M32 - 40)).ShiftOk 2147483648 ∧
     TP.TPClockOk (2 ^ 40) (exampleTpNode .t64 (M32 - 40)) := by
-  refine ⟨⟨by decide, by decide, by decide, fun i => ?_, fun i => ?_⟩, ⟨⟨by decide, ?_⟩, fun i => Or.inl rfl, ?_⟩,
-    ⟨by decide, by decide, by decide, fun i => ?_, fun i => ?_⟩⟩
+  refine ⟨⟨by decide, by decide, by decide, fun i => ?_, fun i => ?_, by decide⟩, ⟨⟨by decide, ?_⟩, fun i => Or.inl rfl, ?_⟩,
+    ⟨by decide, by decide, by decide, fun i => ?_, fun i => ?_, by decide⟩⟩
   · cases i with
     | zero => decide
     | succ j => show ArmOk .t32 _ _ (187 + 0 * 8); decide
